@@ -25,6 +25,9 @@ pub enum Ret {
     /// sorted dump of the context slot, read through its public handle
     /// (the handler locks the very context it is evaluated in)
     DumpSlot(usize),
+    /// a delegating handler: it evaluates this program on a fresh context and returns the outcome
+    /// as its own (the value, or the very Err the nested evaluation produced)
+    Delegate(Prog, CtxSpec),
 }
 
 #[derive(Clone, PartialEq, Eq, Hash, Debug, Serialize, Deserialize)]
